@@ -55,6 +55,17 @@ std::function<void(HllSketchImpl<A>*)> CouponHashSet<A>::get_deleter() const {
   };
 }
 
+// the set is promoted to HLL when it is more than 3/4 full at 2^(lgK-3) entries
+static inline void checkCountAndLgArrInts(uint32_t couponCount, uint8_t lgArrInts, uint8_t lgK) {
+  if (lgArrInts > lgK - 3) {
+    throw std::invalid_argument("Invalid lgArrInts for CouponHashSet: " + std::to_string(lgArrInts));
+  }
+  const uint32_t maxArrInts = 1u << (lgK - 3);
+  if (couponCount > maxArrInts / hll_constants::RESIZE_DENOM * hll_constants::RESIZE_NUMER) {
+    throw std::invalid_argument("Invalid coupon count for CouponHashSet: " + std::to_string(couponCount));
+  }
+}
+
 template<typename A>
 CouponHashSet<A>* CouponHashSet<A>::newSet(const void* bytes, size_t len, const A& allocator) {
   if (len < hll_constants::HASH_SET_INT_ARR_START) { // hard-coded
@@ -89,6 +100,7 @@ CouponHashSet<A>* CouponHashSet<A>::newSet(const void* bytes, size_t len, const 
 
   uint32_t couponCount;
   std::memcpy(&couponCount, data + hll_constants::HASH_SET_COUNT_INT, sizeof(couponCount));
+  checkCountAndLgArrInts(couponCount, lgArrInts, lgK);
   if (lgArrInts < hll_constants::LG_INIT_SET_SIZE) {
     lgArrInts = HllUtil<>::computeLgArrInts(SET, couponCount, lgK);
   }
@@ -153,6 +165,9 @@ CouponHashSet<A>* CouponHashSet<A>::newSet(std::istream& is, const A& allocator)
   const bool compactFlag = ((listHeader[hll_constants::FLAGS_BYTE] & hll_constants::COMPACT_FLAG_MASK) ? true : false);
 
   const auto couponCount = read<uint32_t>(is);
+  if (!is.good())
+    throw std::runtime_error("error reading from std::istream");
+  checkCountAndLgArrInts(couponCount, lgArrInts, lgK);
   if (lgArrInts < hll_constants::LG_INIT_SET_SIZE) {
     lgArrInts = HllUtil<>::computeLgArrInts(SET, couponCount, lgK);
   }
